@@ -78,8 +78,9 @@ def main():
                                  'summary': out.strip().splitlines()[-1][:200] if out.strip() else ''}
         dst = os.path.join(VERIF, 'seeded', mid)
         os.makedirs(dst, exist_ok=True)
-        shutil.copy(os.path.join(src, 'patch.diff'), dst)
-        shutil.copy(os.path.join(src, 'demo.py'), dst)
+        if os.path.realpath(src) != os.path.realpath(dst):
+            shutil.copy(os.path.join(src, 'patch.diff'), dst)
+            shutil.copy(os.path.join(src, 'demo.py'), dst)
         if os.path.exists(os.path.join(src, 'README.md')):
             shutil.copy(os.path.join(src, 'README.md'), os.path.join(dst, 'NEEDS.md'))
         meta['ran'] = ['demo.py on unchanged worktree', 'git apply patch.diff', 'pytest (same command as the baseline) before/after',
